@@ -27,6 +27,7 @@ import (
 	"github.com/nspcc-dev/neo-go/verifharness/vlib/ev"
 	"github.com/nspcc-dev/neo-go/verifharness/vlib/rng"
 	"github.com/nspcc-dev/neo-go/verifharness/vlib/vchain"
+	"github.com/nspcc-dev/neo-go/verifharness/vlib/vrpc"
 )
 
 type roScript struct {
@@ -87,8 +88,9 @@ func stackString(items []stackitem.Item) string {
 }
 
 type heightRec struct {
-	scripts []roScript
-	live    []string
+	scripts   []roScript
+	live      []string
+	contracts []contractAt // deployed contracts alive at this height
 }
 
 func catalogue(p *vchain.Producer, r *rng.R) []roScript {
@@ -520,6 +522,9 @@ func TestCheck(t *testing.T) {
 		h := vchain.BuildHistory(t, vchain.HistoryCfg{Idx: 600 + hi, Blocks: nb, Keep: true, Weights: &w, Proto: proto, PName: pname, Echidna: hi%2 == 1,
 			OnBlock: func(p *vchain.Producer, b *block.Block) {
 				rec := &heightRec{scripts: catalogue(p, rr)}
+				for _, d := range p.Live {
+					rec.contracts = append(rec.contracts, contractAt{d.ID, d.Hash})
+				}
 				for _, s := range rec.scripts {
 					rec.live = append(rec.live, runRO(p.BC, s.script, 0))
 				}
@@ -614,6 +619,28 @@ func TestCheck(t *testing.T) {
 			}()
 		}
 		wg.Wait()
+		// the same old states read through the node's JSON-RPC server
+		if run.Want(fmt.Sprintf("h%d/rpc", hi)) {
+			if n, err := vrpc.Start(t, rep.BC, nil); err != nil {
+				run.Inconclusive("h%d: cannot start the RPC server on a loopback port: %v", hi, err)
+			} else {
+				rr2 := rng.New(uint64(hi) + 9000)
+				for hh := 1; hh < len(h.P.Obs); hh++ {
+					if !(changed[uint32(hh)] && rr2.Intn(2) == 0) && hh%9 != 0 && hh != len(h.P.Obs)-1 {
+						continue
+					}
+					id := fmt.Sprintf("h%d/rpc/height%d", hi, hh)
+					v := rpcHeight(run, n, rep.BC, uint32(hh), h.P.Obs[hh], recs[uint32(hh)], rr2)
+					run.Case(id, true)
+					run.Obs("rpc_heights_checked", 1)
+					if v != nil {
+						run.Violation(v.sig, id, v.detail, map[string]any{"history": 600 + hi, "protocol": pname, "height": hh, "backend": backend})
+						break
+					}
+				}
+				n.Stop()
+			}
+		}
 		rep.Close()
 		// second node: a pruning one (RemoveUntraceableBlocks, GC really running);
 		// the same reads are made through the roots it still retains, while it
